@@ -576,8 +576,31 @@ func (w *fmWorld) opResolve(op *FMOp) (*kernel.Violation, error) {
 	}
 	// FontLocation / FontMetadata of the result (only when the parsed font is unique in the map)
 	if got != nil {
-		if _, own := w.sut.byFace[got]; own {
-			w.out.Count("check.metadata", 1)
+		if id, own := w.sut.byFace[got]; own {
+			// which add created this face, and is its parsed font used by that add only?
+			uses, idx := 0, -1
+			for _, a := range w.adds {
+				if a.kind == "face" && locString(w.locName(a.i, a.seq)) == id {
+					idx = a.i
+				}
+			}
+			if idx >= 0 {
+				for _, a := range w.adds {
+					if a.kind == "face" && w.c.Fonts[a.i].File == w.c.Fonts[idx].File && w.c.Fonts[a.i].Index == w.c.Fonts[idx].Index {
+						uses++
+					}
+				}
+			}
+			if idx >= 0 && uses == 1 {
+				w.out.Count("check.metadata", 1)
+				if loc := locString(w.sut.fm.FontLocation(got.Font)); loc != id {
+					return &kernel.Violation{Oracle: "metadata", Site: "resolve:font-location", Detail: fmt.Sprintf("FontLocation of the resolved face is %s, the face was added as %s", loc, id)}, nil
+				}
+				fam, _ := w.sut.fm.FontMetadata(got.Font)
+				if want := font.NormalizeFamily(w.c.Fonts[idx].Family); fam != want {
+					return &kernel.Violation{Oracle: "metadata", Site: "resolve:font-metadata", Detail: fmt.Sprintf("FontMetadata family of the resolved face is %q, the face was added as %q", fam, want)}, nil
+				}
+			}
 		}
 	}
 	return nil, nil
